@@ -66,9 +66,9 @@ def _check_rec(part, cfg, name, rec, ref, who):
                for f in ev['factors'].values() for k in 'AG') < -1e-3:
             part.count('steps_with_indefinite_factor')
         vs = O.system_residual(cfg, ev, rv, who=who, stats=part)
-        if ev['steps_after'] != t + 1:
+        if ev['steps_after'] != rv['steps_after']:
             vs.append(('steps', f'steps={ev["steps_after"]} after {t + 1} '
-                       'steps'))
+                       f'training steps, expected {rv["steps_after"]}'))
         if vs:
             kinds = '+'.join(sorted({k for k, _ in vs}))
             part.violation(
@@ -155,6 +155,17 @@ def configs(thorough, seed):
                     'seed': seed, 'kfac': k, 'ckpt_perturb': True,
                     'history': [['train'], ['train'], ['ckpt', True, True],
                                 ['train'], ['train'], ['train']]})
+    # roll-back into the SAME, already used object: the next step (not an
+    # update step) must use second-order data of the restored factors
+    for model, (m, pre) in itertools.product(['mlp3', 'conv'], methods):
+        k = dict(damping=0.05, factor_decay=0.5, kl_clip=1e-3, lr=0.1,
+                 compute_method=m, compute_eigenvalue_outer_product=pre,
+                 factor_update_steps=3, inv_update_steps=3)
+        out.append({'model': model, 'dtype': 'f32', 'batch': 2, 'world': 1,
+                    'seed': seed, 'kfac': k,
+                    'history': [['train'], ['keep'], ['train'], ['train'],
+                                ['train'], ['rollback'], ['train'],
+                                ['train']]})
     # simulated worlds: ranks that RECEIVE second-order data or gradients
     # must satisfy the system as well, on every step
     for world, strat in ((2, 'COMM_OPT'), (2, 'MEM_OPT'), (4, 'COMM_OPT'),
@@ -165,7 +176,8 @@ def configs(thorough, seed):
                 continue
             k = dict(damping=0.05, factor_decay=0.5, kl_clip=kl, lr=0.1,
                      compute_method=m, compute_eigenvalue_outer_product=pre,
-                     grad_worker_fraction=strat)
+                     grad_worker_fraction=strat,
+                     symmetry_aware=(len(out) % 2 == 0))
             out.append({'model': model, 'dtype': 'f32', 'batch': 2,
                         'world': world, 'seed': seed, 'kfac': k,
                         'history': [['train']] * 3})
